@@ -8,6 +8,9 @@
 //@ type src/delta.rs Source derives=PartialEq,Eq,Structural
 //@ type src/handlers/hunk_header.rs ParsedHunkHeader
 //@ type src/handlers/merge_conflict.rs MergeConflictCommit
+//@ type src/handlers/merge_conflict.rs MergeConflictCommits noderive
+//@ type src/handlers/merge_conflict.rs MergeConflictLines
+//@ type src/handlers/merge_conflict.rs MergeConflictCommitNames
 //@ type src/handlers/grep.rs LineType derives=Clone,Copy,PartialEq,Eq,Structural
 //@ type src/config.rs GrepType
 //@ type src/handlers/diff_header.rs FileEvent derives=PartialEq,Eq,Structural
